@@ -77,6 +77,10 @@ impl Rich {
 
     pub fn build(spec: &RichSpec) -> Rich {
         let mut w = World::new(1_700_000_000);
+        // position / bundle mint keys are arbitrary key pairs: here they all start with a valid SPL Multisig header (m, n, 1), the
+        // precondition for an attacker to craft a token-program-owned account of another type over them (C04 forged-proof mutants)
+        let n = 6 + (spec.dynamic_mask % 6);
+        w.mint_header = Some([1 + (spec.swap_bits % n), n, 1]);
         let ts = spec.tick_spacing;
         let tsi = ts as i32;
         let cfg = w.init_config(spec.protocol_fee_rate.min(2500));
